@@ -99,7 +99,7 @@ class Amuset(probe.Contract):
         d, m = X.shape
         n = [len(f) for f in bl]
         N = int(np.prod(n))
-        if N * m > 4096:
+        if N * m > 4096 and not (N <= 4 and m <= 10000):
             return
         try:
             lam, second, ranks = res
